@@ -4,6 +4,16 @@ GEN = ["secp256k1_ecmult_gen", "secp256k1_ge_set_gej"]
 SIGN_INNER_REPL = ["secp256k1_ecdsa_sig_sign", "nonce_function_rfc6979_impl", "secp256k1_ec_commit_seckey"] + GEN
 RFC_DRBG = ["secp256k1_rfc6979_hmac_sha256_initialize", "secp256k1_rfc6979_hmac_sha256_generate", "secp256k1_rfc6979_hmac_sha256_finalize"]
 REC_ORACLES = ["secp256k1_ge_set_xo_var", "secp256k1_scalar_inverse_var", "secp256k1_scalar_mul", "secp256k1_ecmult", "secp256k1_ge_set_gej_var"]
+# Loop contracts (engine-supplied, no /repo edit).  Ghost logs are single struct objects (assumed_C01.h / assumed_C15.h), so each is one target.
+def sign_loop(ghost):
+    """retry loop of secp256k1_ecdsa_sign_inner: everything the body may write; invariant: attempt counter == number of nonce-function calls"""
+    return {"secp256k1_ecdsa_sign_inner": {"while (1)": {
+        "assigns": "ret, count, non, __CPROVER_object_whole(nonce32), *r, *s; recid != NULL: *recid; s2c_opening != NULL: *s2c_opening; s2c_sha != NULL: *s2c_sha; " + ghost,
+        "invariants": "count == verif_nonce_calls"}}}
+SIGN_LOOP = sign_loop("verif_nonce_calls, g_nf, g_ss, g_cs")
+RFC_LOOP = {"nonce_function_rfc6979_impl": {"for (i = 0; i <= counter; i++)": {
+    "assigns": "i, rng, __CPROVER_object_upto(nonce32, 32), verif_rfc6979_generate_calls",
+    "invariants": "(i == 0 || i - 1 <= counter) && verif_rfc6979_generate_calls == i"}}}
 UNITS = [
     U("C01.sig_sign", ["C01"], "harness/C01/sig_sign.c", "h_sig_sign", replace=MULINV + GEN, assumed=MULINV + GEN,
       functions=["secp256k1_ecdsa_sig_sign", "secp256k1_fe_normalize", "secp256k1_fe_get_b32", "secp256k1_scalar_set_b32",
@@ -16,21 +26,21 @@ UNITS = [
       functions=["secp256k1_ecdsa_signature_normalize", "secp256k1_ecdsa_signature_load", "secp256k1_ecdsa_signature_save", "secp256k1_scalar_is_high", "secp256k1_scalar_negate"],
       timeout=600, min_obl=50, replay=False),
     U("C01.sign_inner", ["C01"], "harness/C01/sign_inner.c", "h_sign_inner", replace=SIGN_INNER_REPL, assumed=GEN,
-      loops=True, closed_by="loop contract on the nonce retry loop (hooks/C01_sign_inner_loop.diff); partial correctness",
+      loop_contracts=SIGN_LOOP, closed_by="loop contract on the nonce retry loop (engine-supplied --loop-contracts-file, no /repo edit); partial correctness, termination not claimed",
       functions=["secp256k1_ecdsa_sign_inner", "secp256k1_scalar_set_b32_seckey", "secp256k1_scalar_set_b32", "secp256k1_scalar_cmov", "secp256k1_int_cmov", "nonce_function_rfc6979"],
       timeout=900, min_obl=100, replay=False,
       note="sig_sign and nonce_function_rfc6979_impl replaced by contracts proved in C01.sig_sign / C01.rfc6979; user nonce callback = stub writing only nonce32 and returning any int"),
     U("C01.rfc6979", ["C01", "C15"], "harness/C01/rfc6979.c", "h_rfc6979", replace=RFC_DRBG,
-      loops=True, closed_by="loop contract on the counter loop (hooks/C01_sign_inner_loop.diff); partial correctness",
+      loop_contracts=RFC_LOOP, closed_by="loop contract on the counter loop (engine-supplied --loop-contracts-file, no /repo edit); partial correctness",
       functions=["nonce_function_rfc6979_impl", "buffer_append", "secp256k1_scalar_set_b32", "secp256k1_scalar_get_b32"],
       timeout=600, min_obl=50, replay=False,
       note="DRBG object functions replaced by ghost-logging frame contracts (their bodies: C05 hash units)"),
     U("C01.sign_api", ["C01"], "harness/C01/sign_api.c", "h_sign", replace=SIGN_INNER_REPL, assumed=GEN,
-      loops=True, closed_by="loop contract on the nonce retry loop (hooks/C01_sign_inner_loop.diff); partial correctness",
+      loop_contracts=SIGN_LOOP, closed_by="loop contract on the nonce retry loop (engine-supplied --loop-contracts-file, no /repo edit); partial correctness, termination not claimed",
       functions=["secp256k1_ecdsa_sign", "secp256k1_ecdsa_sign_inner", "secp256k1_ecdsa_signature_save", "secp256k1_ecmult_gen_context_is_built"],
       timeout=900, min_obl=100, replay=False),
     U("C01.sign_recoverable", ["C01"], "harness/C01/sign_api.c", "h_sign_recoverable", defs=["UNIT_SIGN_RECOVERABLE"], replace=SIGN_INNER_REPL, assumed=GEN,
-      loops=True, closed_by="loop contract on the nonce retry loop (hooks/C01_sign_inner_loop.diff); partial correctness",
+      loop_contracts=SIGN_LOOP, closed_by="loop contract on the nonce retry loop (engine-supplied --loop-contracts-file, no /repo edit); partial correctness, termination not claimed",
       functions=["secp256k1_ecdsa_sign_recoverable", "secp256k1_ecdsa_sign_inner", "secp256k1_ecdsa_recoverable_signature_save"],
       timeout=900, min_obl=100, replay=False),
     U("C01.rec_parse", ["C01"], "harness/C01/rec_codec.c", "h_rec_parse",
